@@ -80,8 +80,11 @@ TEXT = {
             "Coq proof by induction on ty (lia) + C02 theorem + correspondence", "5 (C11)"),
     "C12": ("Theorems: default_node(t) succeeds for every well-formed type and its root is Spec.htr t (zero_val t) "
             "(induction on ty through fill_to_length / fill_to_contents and the CRep invariant); zero_val is well-formed; "
-            "default root = root of the explicitly constructed zero value. Navigability and default encoding by "
-            "correspondence (every fixed-structure gindex up to depth 3).",
+            "default root = root of the explicitly constructed zero value; C12_default_is_constructed: the default backing IS "
+            "the constructor's backing of the zero value (same tree) for every type, hence (C02) its encoding is the zero "
+            "value's encoding; container fields and composite vector elements of the default are navigable and hold their "
+            "own defaults. Omitted constructor fields, packed-chunk navigation: correspondence (every fixed-structure "
+            "gindex up to depth 3).",
             "Coq proof by induction on ty + correspondence", "5 (C12)"),
     "C13": ("Theorems (Coq, every width w>=0, every operand): constructor accepts exactly [0,2^w); coercing operators "
             "(+ - * // % & | ^, both operand orders, same-type or plain-int operand) return the exact mathematical result "
